@@ -29,7 +29,7 @@ from .direct_method import DirectMethod
 from .multiple_shooting import MultipleShooting
 from .single_shooting import SingleShooting
 from collections import defaultdict
-from .casadi_helpers import DM2numpy, get_meta, merge_meta, HashDict, HashDefaultDict, HashOrderedDict, HashList, for_all_primitives, is_numeric
+from .casadi_helpers import DM2numpy, get_meta, merge_meta, HashDict, HashDefaultDict, HashOrderedDict, HashList, for_all_primitives
 from contextlib import contextmanager
 from collections import OrderedDict
 from .casadi_helpers import vvcat
@@ -546,7 +546,7 @@ class Stage:
         for_all_primitives(parameter, value, action, "First argument to set_value must be a parameter or a simple concatenation of parameters", rhs_type=DM)
         if self.master is not None and self.master.is_transcribed:
             # Guesses given as expressions (of time) depend on parameter values, e.g. a parametric horizon
-            if any(not is_numeric(e) for e in self._initial.values()):
+            if self._method.initial_depends_on_parameters(self._initial):
                 self._method.set_initial(self._augmented, self.master._method, self._initial)
 
 
